@@ -260,6 +260,17 @@ func (s *WSim) Directed() {
 	if ht, err := s.OpSend(a, 7, url, false); err == nil && ht != nil {
 		s.OpReclaim(a)
 	}
+	// a token stays out while a melt hangs, fails and is reconciled; then the token is redeemed
+	out, oerr := s.OpSend(a, 10, url, false)
+	for _, success := range []bool{false, true} {
+		rec, err := s.OpMelt(a, 20, url, lnmodel.PayPlan{Answer: lnmodel.APending, Truth: lnmodel.InFlight})
+		if err == nil && rec != nil && rec.State == "PENDING" {
+			s.W.LN.Resolve(s.W.MintByURL(url).Env.Name, rec.Hash, success)
+			s.OpCheckMelt(rec)
+		}
+	}
+	recv(out, oerr, false)
+	s.OpRemoveSpent(a)
 }
 
 // OpMelt: the wallet pays an external invoice of sat through mint url with the given Lightning plan.
